@@ -5,9 +5,10 @@ CONSTANTS
   BufSize = 1
   CpInterval = 2
   MaxAdv = 1
-  Atomic = FALSE
+  Atomic = TRUE
   Eager = FALSE
   Emit = FALSE
-INVARIANTS SafetyAsWritten
+  AdvKinds = {"flip", "dup", "drop", "swap", "splice", "replaycp", "delaycps"}
+INVARIANTS SafetyFull
 CHECK_DEADLOCK FALSE
 VIEW MCView
